@@ -108,14 +108,14 @@ Proof.
 Qed.
 
 (** ---- C12 supplies the invariant ---- *)
-Lemma firstn_prefix_inv names_of cap pool sched :
+Lemma state_after_inv names_of cap pool sched :
   wf_pool names_of pool -> Inv names_of cap (state_after cap pool sched).
 Proof. intros Hwf. unfold state_after. apply sched_inv; [apply inv_init | exact Hwf]. Qed.
 
 (** every schedule of every pool *)
 Theorem guarantees_every_schedule names_of cap pool sched :
   wf_pool names_of pool -> HandshakeGuarantees names_of cap (state_after cap pool sched).
-Proof. intros Hwf. apply guarantees_of_inv, firstn_prefix_inv, Hwf. Qed.
+Proof. intros Hwf. apply guarantees_of_inv, state_after_inv, Hwf. Qed.
 
 (** ... at every instant of it *)
 Theorem guarantees_every_instant names_of cap pool sched k :
@@ -450,7 +450,7 @@ Theorem na_lookup_sound_in_schedule lower is_space sup valid names_of cap pool s
      (b = false /\ fallback_name cfg <> [] /\ v = normalize lower is_space (fallback_name cfg))).
 Proof.
   intros Hwf H. eapply (na_lookup_sound lower is_space sup valid names_of cap); [|exact H].
-  intros j. apply firstn_prefix_inv, Hwf.
+  intros j. apply state_after_inv, Hwf.
 Qed.
 
 (** ================= non-vacuity: a pool of five threads under one schedule ================= *)
